@@ -1,5 +1,6 @@
 //! Check registry: maps property ids to worker / replay implementations.
 
+pub mod conc;
 pub mod corrupt;
 pub mod crash;
 pub mod fault;
@@ -14,7 +15,7 @@ pub const HISTORY_IDS: &[&str] = &["C01", "C03", "C04", "C07", "C09", "C10", "C1
 
 pub fn all_ids() -> Vec<&'static str> {
     let mut v: Vec<&'static str> = HISTORY_IDS.to_vec();
-    v.extend(["C02", "C16", "C12", "C08", "C15", "C13", "C14"]);
+    v.extend(["C02", "C16", "C12", "C08", "C15", "C13", "C14", "C05"]);
     v.sort();
     v
 }
@@ -79,6 +80,16 @@ pub fn meta(id: &str) -> Option<CheckMeta> {
             rule: "(a) policy level through the public FilterPolicy API: exhaustive family key lengths 0-9 x bits_per_key 1-64 plus generated key sets (0-3000 keys, duplicates, empty key, arbitrary bytes, all lengths mod 4), every member must answer may-match=true; (b) table level: tables as in C13 (block sizes 1-1Mi so that several data blocks share one 2 KiB filter range and 5 kB values make one block span several), with the Bloom policy and with a harness-supplied exact-set policy (exact membership, so a builder/reader disagreement about which filter covers a block is a deterministic false negative): for every data block offset and every user key stored in that block the filter block must answer may-match, and get of every stored (key, seq) must not be 'not in this file'. Non-trivial = table with >=3 filter ranges where one filter covers >=2 blocks or an empty filter lies between blocks (policy cases: non-empty key set); distinct by case hash".into(),
             assumptions: vec!["the exact-set policy is part of the harness; the filter block builder/reader are raindb's".into()],
         }),
+        "C05" => Some(CheckMeta {
+            id: "C05",
+            level: "exploration",
+            rule: "a case is 2-4 client programs (3-14 ops each: put/delete/batch/get/flush over 2-6 keys incl. the empty key, unique values) on a 512-1500 byte memtable, plus 1-4 generated schedule directives (thread T is held at the n-th hit of hook point P - get.unlocked, get.before_version, write.before_wal/after_wal/mid_memtable/after_memtable for clients; flush.before_build, manifest.before/after_append, compaction.step, gc.before/after_delete for the background thread - until all other clients finished or a 20-150 ms safety timeout) or no directives (natural schedule); every op is recorded with invocation/response stamps from one global counter, a quiescent final get of every key is appended, and every key's history is decided by a complete Wing-Gong/Lowe linearizability search with memoisation over a register with deletes (a simple single-read witness is printed when one exists; the checker is self-tested on simulated atomic histories before every run). Every call must return Ok in these fault-free runs. Non-trivial = a get's interval contained a memtable rotation, version install or file deletion (event counters), or a group commit of several writers occurred; distinct by case hash".into(),
+            assumptions: vec![
+                "per-key linearizability is a necessary condition of linearizability of the whole store (locality); cross-key atomicity is C06".into(),
+                "windows that do not cross a hook point (inside the skip list or ArcSwap) are only reached by natural schedules".into(),
+                "thread timing varies between runs; the oracle judges the recorded history, so timing cannot cause a false alarm".into(),
+            ],
+        }),
         "C12" => Some(CheckMeta {
             id: "C12",
             level: "exploration",
@@ -99,6 +110,7 @@ pub fn worker(ctx: &WorkerCtx) -> WorkerResult {
         "C12" => return logfmt::worker(ctx),
         "C08" => return fault::worker(ctx),
         "C15" => return corrupt::worker(ctx),
+        "C05" => return conc::worker_c05(ctx),
         "C13" | "C14" => return tablefmt::worker(ctx),
         _ => {}
     }
@@ -113,6 +125,7 @@ pub fn replay_value(v: &Value) -> Result<(), String> {
         "logfmt" => logfmt::replay(v),
         "faultpoint" => fault::replay(v),
         "corruptpoint" => corrupt::replay(v),
+        "conc" => conc::replay(v),
         "tablefmt" | "filterpolicy" => tablefmt::replay(v),
         other => Err(format!("unknown replay engine {other:?}")),
     }
